@@ -97,9 +97,15 @@ func (c *ScriptConn) Write(p []byte) (int, error) {
 	return n, err
 }
 
-func (c *ScriptConn) Close() error                       { c.Closes++; return nil }
-func (c *ScriptConn) LocalAddr() net.Addr                { return addr("script") }
-func (c *ScriptConn) RemoteAddr() net.Addr               { return addr("script-peer") }
-func (c *ScriptConn) SetDeadline(t time.Time) error      { c.Deadlines = append(c.Deadlines, t); return nil }
-func (c *ScriptConn) SetReadDeadline(t time.Time) error  { c.Deadlines = append(c.Deadlines, t); return nil }
-func (c *ScriptConn) SetWriteDeadline(t time.Time) error { c.Deadlines = append(c.Deadlines, t); return nil }
+func (c *ScriptConn) Close() error                  { c.Closes++; return nil }
+func (c *ScriptConn) LocalAddr() net.Addr           { return addr("script") }
+func (c *ScriptConn) RemoteAddr() net.Addr          { return addr("script-peer") }
+func (c *ScriptConn) SetDeadline(t time.Time) error { c.Deadlines = append(c.Deadlines, t); return nil }
+func (c *ScriptConn) SetReadDeadline(t time.Time) error {
+	c.Deadlines = append(c.Deadlines, t)
+	return nil
+}
+func (c *ScriptConn) SetWriteDeadline(t time.Time) error {
+	c.Deadlines = append(c.Deadlines, t)
+	return nil
+}
